@@ -167,6 +167,21 @@ func load(repo string, withSSA bool) (*Ctx, error) {
 	if len(errs) > 0 {
 		return nil, fmt.Errorf("type/load errors: %s", strings.Join(errs, "; "))
 	}
+	for _, p := range pkgs {
+		AllFuncDecls(p, func(fd *ast.FuncDecl) {
+			if fd.Recv != nil || fd.Body == nil {
+				return
+			}
+			if fo, ok := p.TypesInfo.Defs[fd.Name].(*types.Func); ok {
+				sig := fo.Type().(*types.Signature)
+				if sig.Params().Len() == 1 && sig.Results().Len() == 1 {
+					if b, ok := sig.Results().At(0).Type().Underlying().(*types.Basic); ok && b.Kind() == types.Bool {
+						predicateDecls[fo] = fd
+					}
+				}
+			}
+		})
+	}
 	if withSSA {
 		prog, spkgs := ssautil.AllPackages(pkgs, ssa.InstantiateGenerics)
 		prog.Build()
